@@ -1,10 +1,13 @@
-(* C28 - refutations for today's tab list / encoder, examples, and the link between the judge's
+(* C28 - refutations for the PRE-FIX tab list / encoder ([old_tcfg]; fixed by d54f770, d5f50a6, eb9ac68), examples, and the link between the judge's
    decidable comparison and entry-for-entry equality. *)
 From Coq Require Import List NArith ZArith Bool Lia String.
 From Verif Require Import Base.Hex Base.Assoc Model.TabList Proofs.C28_Struct Proofs.C28_Wire.
 Import ListNotations.
 Open Scope string_scope.
 Open Scope N_scope.
+
+Lemma tcfg_impl_is_spec_proof : impl_tcfg = spec_tcfg.
+Proof. reflexivity. Qed.
 
 (* ---------- decidable comparison = equality ---------- *)
 
@@ -32,7 +35,7 @@ Qed.
 Lemma same_view_spec a b : same_view a b = true <-> (forall k, aget k a = aget k b).
 Proof. unfold same_view. apply ext_eqb_spec. apply cinfo_eqb_eq. Qed.
 
-(* ---------- today's code: C28-1 (= C07-1) ---------- *)
+(* ---------- the pre-fix code: C28-1 (= C07-1) ---------- *)
 
 Definition alice : pattrs := mkA (tx "Alice") [] 300 1 true None 0 false.
 Definition quiet_bob : pattrs := mkA (tx "Bob") [] 0 (-1) true None 0 false.
@@ -40,19 +43,19 @@ Definition quiet_bob : pattrs := mkA (tx "Bob") [] 0 (-1) true None 0 false.
 (* the add of a listed creative-mode player with latency 300 ms is written latency, listed, game mode;
    the client reads game mode, listed, latency: it holds survival and 1 ms *)
 Lemma order_refuted_values :
-  exists c, client_after 765 [] (packets impl_tcfg 765 [] [] [Add [(1, alice)]]) = Some c /\
+  exists c, client_after 765 [] (packets old_tcfg 765 [] [] [Add [(1, alice)]]) = Some c /\
             option_map c_gm (aget 1 c) = Some 0 /\ option_map c_latency (aget 1 c) = Some 1%Z /\
-            option_map c_gm (aget 1 (view 765 [] (proxy_after impl_tcfg 765 [] [] [Add [(1, alice)]]))) = Some 1 /\
-            option_map c_latency (aget 1 (view 765 [] (proxy_after impl_tcfg 765 [] [] [Add [(1, alice)]]))) = Some 300%Z.
+            option_map c_gm (aget 1 (view 765 [] (proxy_after old_tcfg 765 [] [] [Add [(1, alice)]]))) = Some 1 /\
+            option_map c_latency (aget 1 (view 765 [] (proxy_after old_tcfg 765 [] [] [Add [(1, alice)]]))) = Some 300%Z.
 Proof. eexists. split; [vm_compute; reflexivity|]. repeat split. Qed.
 
 (* with a display name (NBT compound {text:"Al"}) the client cannot decode the packet at all *)
 Definition tbl_al : list bytes := [hx "0a080004746578740002416c00"].
 Definition alice_named : pattrs := mkA (tx "Alice") [] 300 1 true (Some 0) 0 false.
 Lemma order_refuted_decode :
-  client_after 765 [] (packets impl_tcfg 765 tbl_al [] [Add [(1, alice_named)]]) = None /\
-  exists c, client_after 765 [] (packets spec_tcfg 765 tbl_al [] [Add [(1, alice_named)]]) = Some c /\
-            same_view (view 765 tbl_al (proxy_after spec_tcfg 765 tbl_al [] [Add [(1, alice_named)]])) c = true.
+  client_after 765 [] (packets old_tcfg 765 tbl_al [] [Add [(1, alice_named)]]) = None /\
+  exists c, client_after 765 [] (packets impl_tcfg 765 tbl_al [] [Add [(1, alice_named)]]) = Some c /\
+            same_view (view 765 tbl_al (proxy_after impl_tcfg 765 tbl_al [] [Add [(1, alice_named)]])) c = true.
 Proof. split; [vm_compute; reflexivity|]. eexists. split; vm_compute; reflexivity. Qed.
 
 (* the same bit set, two byte strings (the probe of DESIGN.md) *)
@@ -66,7 +69,7 @@ Proof. cbv zeta. split; [reflexivity|]. split; [vm_compute; discriminate|reflexi
 (* ---------- C28-2, C28-3 ---------- *)
 
 Lemma readd_panics :
-  map m_ret (run impl_tcfg 765 [] [] [Add [(1, alice)]; AddLive 1]) = [TOk; TPanic].
+  map m_ret (run old_tcfg 765 [] [] [Add [(1, alice)]; AddLive 1]) = [TOk; TPanic].
 Proof. vm_compute. reflexivity. Qed.
 
 (* with encoding and nil check repaired: a re-add with another profile leaves the client with the old name *)
@@ -86,8 +89,8 @@ Definition demo_history : list top :=
    RemoveAll [1]].
 
 Lemma demo_agrees :
-  exists c, client_after 765 [] (packets spec_tcfg 765 [] [] demo_history) = Some c /\
-            same_view (view 765 [] (proxy_after spec_tcfg 765 [] [] demo_history)) c = true /\
+  exists c, client_after 765 [] (packets impl_tcfg 765 [] [] demo_history) = Some c /\
+            same_view (view 765 [] (proxy_after impl_tcfg 765 [] [] demo_history)) c = true /\
             map fst c = [2].
 Proof. eexists. split; [vm_compute; reflexivity|]. split; vm_compute; reflexivity. Qed.
 
